@@ -27,5 +27,12 @@ def run(tier):
         Job("harness.c12", mn, H.shards(mn, 4 if q else 8), 500 if q else 700,
             bounds=dict(functions=[f.__qualname__ for f in (H.QUICK_FUNCS if q else H.MOD_FUNCS)], subsets="all non-empty subsets (symbolic bits)"),
             rule="one path = one traced subset", describe=H.describe),
+        Job("harness.c12", "genmod_quick" if q else "genmod", H.shards("genmod_quick" if q else "genmod", 3), 500 if q else 900,
+            bounds=dict(kinds=list(H.GEN_KINDS), signature="0..1 parameter of each kind, defaults None/1 from a tape-chosen index, *args, **kwargs, short/long names",
+                        second_function=list(H.OTHER_Q if q else H.OTHER), traced="the generated function alone or both", module="regenerated under one name on every path"),
+            rule="one path = (function kind, signature shape, second function, traced subset): REAL functions are generated from the tape", describe=H.describe),
     ]
-    return run_check(PID, tier, jobs, H.FUNCTIONS, ASSUMPTIONS)
+    return run_check(PID, tier, jobs, H.FUNCTIONS, ASSUMPTIONS + [
+        "genmod: a module `vfix_gen` is generated (exec of tape-composed source) on every path, replacing the previous generation in sys.modules; "
+        "the stub must mirror inspect.signature and the class-body kind of the functions of THIS generation (whatever MonkeyType memoises "
+        "per module/qualname must not survive a regeneration)"])
